@@ -1,4 +1,5 @@
 import RsslVerif.Gen.HlslGenTables
+import RsslVerif.Gen.HlslIntrinsicTables
 /-!
 # `Model.Ir` — the executable, resource-free scalar subset of `rssl_ir`
 
@@ -6,11 +7,11 @@ Mirrors `ir/src/ir_expressions.rs` (`Expression`), `ir/src/ir_statements.rs` (`S
 and `ir/src/ir_types.rs` (`Constant`) for the constructors listed below.  `Vec<Expression>` is the mutual
 inductive `Exprs` (a plain list written out so that structural recursion and induction go through).
 Not modelled (answered `unsupported` by the driver): vectors/matrices/structs/arrays, swizzles, member access,
-constructors, `SizeOf`, intrinsic functions, method calls, `switch`/case labels, `discard`, 64-bit and 16-bit constants,
+constructors, `SizeOf`, intrinsic functions, method calls, `discard`, 64-bit and 16-bit constants,
 strings, enums.
 -/
 namespace RsslVerif.Model.Ir
-open RsslVerif.Gen.HlslGenTables
+open RsslVerif.Gen.HlslGenTables RsslVerif.Gen.HlslIntrinsicTables
 
 /-- scalar types of the subset (`ir::ScalarType` + void); `lit`/`flit` = IntLiteral / FloatLiteral -/
 inductive Ty where
@@ -51,6 +52,8 @@ inductive Expr where
   | seq (es : Exprs)
   | cast (ty : Ty) (e : Expr)
   | call (f : Nat) (args : Exprs)      -- Call(id, FreeFunction, args) to a user function
+  | intr (i : Intrinsic) (ty ret : Ty) (args : Exprs)
+      -- Call(id, FreeFunction, args) where `id` is an intrinsic whose resolved signature is (ty, …, ty) → ret
   deriving Repr, Inhabited
 inductive Exprs where
   | nil
@@ -86,6 +89,9 @@ inductive Stmt where
   | break
   | continue
   | ret (e : Option Expr)
+  | switch (ty : Ty) (c : Expr) (b : Stmts)   -- Switch(cond, block); `ty` = cond.get_type() (resolved, as every typed node)
+  | caseLabel (c : Const)                     -- CaseLabel(Constant): a statement of its own in the IR
+  | defaultLabel
   deriving Repr, Inhabited
 inductive Stmts where
   | nil
